@@ -33,6 +33,9 @@ def setup(ctx, mon):
 
 
 def cases(rng, tier, shard, nshards):
+    for j in range(2 if tier == 'quick' else 12):
+        yield dict(kind='threads', n=int(rng.integers(1, 4)), m=int(rng.integers(1, 3)), seed=int(rng.integers(0, 2 ** 31)),
+                   nthreads=int(rng.choice([2, 4, 8])))
     nc = BUDGET[tier] // nshards
     for i in range(nc):
         n = int(rng.integers(1, 7))
@@ -85,7 +88,54 @@ def make_grid(rng, kind, length):
     return x[::-1].copy() if kind == 'decreasing' else x
 
 
+def run_threads(case, ctx):
+    """fd_derivative is a function of its arguments: several threads differentiating samples on grids of the same length (same n,
+    same stencil) at the same time get, bit for bit, what each gets alone."""
+    import sys
+    import threading
+    from numdifftools.fornberg import fd_derivative
+    rng = np.random.default_rng(case['seed'])
+    n, m = case['n'], case['m']
+    length = 2 * (n // 2 + m) + 2 + int(rng.integers(6, 30))
+    jobs = []
+    for t in range(case['nthreads']):
+        xg = np.cumsum(rng.uniform(0.2, 1.0, length)) * (1.0 if t % 2 == 0 else -1.0) + float(rng.uniform(-2, 2))
+        jobs.append((np.sin(xg) + 0.1 * xg ** 3, xg))
+    alone = [np.array(fd_derivative(fx, xg, n=n, m=m), copy=True) for fx, xg in jobs]
+    got = [[] for _ in jobs]
+    old = sys.getswitchinterval()
+    sys.setswitchinterval(1e-6)
+    start = threading.Barrier(len(jobs))
+
+    def worker(k):
+        start.wait(30)
+        for _ in range(12):
+            try:
+                got[k].append(np.array(fd_derivative(jobs[k][0], jobs[k][1], n=n, m=m), copy=True))
+            except Exception as exc:
+                got[k].append(exc)
+    ths = [threading.Thread(target=worker, args=(k,)) for k in range(len(jobs))]
+    try:
+        for th in ths:
+            th.start()
+        for th in ths:
+            th.join(120)
+    finally:
+        sys.setswitchinterval(old)
+    ctx.count('concurrent_rounds')
+    for k, lst in enumerate(got):
+        for r in lst:
+            ctx.count('concurrent_results_compared')
+            if isinstance(r, Exception) or r.tobytes() != alone[k].tobytes():
+                ctx.reject('result_differs_when_other_threads_differentiate_at_the_same_time', observed=(repr(r)[:120] if isinstance(r, Exception) else r[:4]),
+                           expected=alone[k][:4], detail=dict(threads=len(jobs), n=n, m=m, length=length))
+                return
+    ctx.nontrivial(('threads', n, m, case['nthreads']))
+
+
 def run_case(case, ctx):
+    if case['kind'] == 'threads':
+        return run_threads(case, ctx)
     from numdifftools.fornberg import fd_derivative
     rng = np.random.default_rng(case['seed'])
     n, m, length, deg = case['n'], case['m'], case['length'], case['degree']
